@@ -233,7 +233,7 @@ theorem lits_dir : Gen.lits_specarray_momd = [0, 90, 180, 180] ∧ Gen.lits_spec
     Gen.lits_npstats_dm = [0, 0, 270, 360] ∧ Gen.lits_npstats_mom1 = [90, 1, 0, 180, 180, 1, 1] := by
   decide +kernel
 theorem lits_widths : Gen.lits_specarray_goda = [2, 2, 2] ∧ Gen.lits_specarray_gw = [4, 2, 2, 2, 2] ∧
-    Gen.lits_specarray_dd = [1, 1, 0, 1] ∧ Gen.lits_specarray_df = [1, 1] := by decide +kernel
+    Gen.lits_specarray_dd = [1, 1, 0, 360, 1] ∧ Gen.lits_specarray_df = [1, 1] := by decide +kernel
 
 /-- deep water: `celerity = 1.56/f`, `wavelen = 1.56/f²` satisfy `L·f = C` exactly, and with
     `k = 2π/L`, `ω = 2πf` the phase speed is `ω/k = C` for every value of π -/
@@ -244,5 +244,14 @@ theorem deep_water (f pi : ℚ) (hf : f ≠ 0) (hpi : pi ≠ 0) :
   constructor
   · field_simp
   · field_simp
+
+/-- `dd` does not depend on where the stored direction sequence starts: for a uniform full-circle grid
+    with spacing `δ ≤ 180` the first two stored directions differ by `δ` or by `360 − δ` (seam), and
+    both give `δ` -/
+theorem dd_seam (a b δ : ℚ) (rest : Vec) (hδ : 0 ≤ δ) (hδ2 : δ ≤ 180)
+    (h : absR (b - a) = δ ∨ absR (b - a) = 360 - δ) : dd (some (a :: b :: rest)) = δ := by
+  show minR (absR (b - a)) (360 - absR (b - a)) = δ
+  unfold minR
+  rcases h with h | h <;> rw [h] <;> split <;> linarith
 
 end WS.C01
